@@ -73,8 +73,10 @@ def main():
         dst = os.path.join(V, "seeded", keep)
         os.makedirs(dst, exist_ok=True)
         for f in os.listdir(d):
-            shutil.copy(os.path.join(d, f), dst)
-        meta["what_i_ran"] = {k: out.get(k) for k in ("demo_without_change", "demo_with_change", "builds", "existing_tests_failing_with_change", "check_exit", "check_output", "caught", "with_failing_input", "replay", "check_wall_s")}
+            if os.path.abspath(d) != os.path.abspath(dst):
+                shutil.copy(os.path.join(d, f), dst)
+        prev = meta.get("what_i_ran") or {}
+        meta["what_i_ran"] = {k: (out.get(k) if out.get(k) is not None else prev.get(k)) for k in ("demo_without_change", "demo_with_change", "builds", "existing_tests_failing_with_change", "check_exit", "check_output", "caught", "with_failing_input", "replay", "check_wall_s")}
         json.dump(meta, open(os.path.join(dst, "meta.json"), "w"), indent=1)
 
 if __name__ == "__main__":
